@@ -2,7 +2,7 @@ import Ucan.Model.Node
 import Ucan.Model.GoM
 /-!
 The part of go-ipld-prime's `datamodel.Node` interface that go-ucan's own code uses on untyped nodes, as functions on the
-model's `Node` (basicnode semantics): `Kind`, `Length`, `LookupByIndex`, `AsBytes`, `AsString`, and map iteration
+model's `Node` (basicnode semantics): `Kind`, `Length`, `LookupByIndex`, `AsBytes`, `AsString`, `AsInt`, `AsFloat` (with `cmp.Compare`, `math.IsInf` on the float bits), and map iteration
 (`MapIterator` / `Done` / `Next`), which the translator turns into a loop over `mapEntries` — `Next` never fails on a
 well-formed node. A regenerated function that works on nodes (`envelope.Inspect`, `FindTag`) is a function on this model.
 -/
@@ -30,6 +30,29 @@ def asBytes : Node → GoM Bytes
 def asString : Node → GoM Bytes
   | .str s => pure s
   | _ => throw (.err "wrong kind: AsString")
+
+/-- `n.AsInt()`: only integers, and only those an int64 holds (basicnode's `plainUint` above MaxInt64 answers with an error) -/
+def asInt : Node → GoM Int
+  | .int i => if intFits64 i then pure i else throw (.err "unsigned integer beyond int64")
+  | _ => throw (.err "wrong kind: AsInt")
+
+/-- `n.AsFloat()`: the IEEE-754 bits -/
+def asFloat : Node → GoM UInt64
+  | .float b => pure b
+  | _ => throw (.err "wrong kind: AsFloat")
+
+/-- `cmp.Compare` on integers -/
+def cmpInt (a b : Int) : Int := if a < b then -1 else if a > b then 1 else 0
+
+/-- `cmp.Compare` on float64: NaN is below every other value and equal to itself; otherwise the numeric order -/
+def floatCompare (a b : UInt64) : Int :=
+  if Float64.isNaN a then (if Float64.isNaN b then 0 else -1)
+  else if Float64.isNaN b then 1
+  else Float64.compare a b
+
+/-- `math.IsInf(f, sign)`: sign > 0 asks for +Inf, sign < 0 for −Inf, 0 for either -/
+def floatIsInf (b : UInt64) (sign : Int) : Bool :=
+  Float64.isInf b && (if sign > 0 then !Float64.sign b else if sign < 0 then Float64.sign b else true)
 
 /-- the (key, value) pairs a `MapIterator` yields, keys as string nodes; nothing for other kinds -/
 def mapEntries : Node → List (Node × Node)
